@@ -4,7 +4,7 @@
    resistance is not assumed — where it is needed the conclusion carries the disjunct
    [Collision H], built constructively from the inputs of the theorem. *)
 From Coq Require Import List ZArith NArith Bool.
-From TM Require Import Common.Hex Common.Sha256 Generated.Consts C10.Model C10.Proofs C10.Sender.
+From TM Require Import Common.Hex Common.Sha256 Generated.Consts C10.Model C10.Proofs C10.Sender C10.Iter.
 Import ListNotations.
 Open Scope Z_scope.
 
@@ -76,6 +76,13 @@ Theorem C10_split_roundtrip :
   forall (data : bytes) (sz : nat), (0 < sz)%nat -> concat (split_data data sz) = data.
 Proof. exact split_roundtrip. Qed.
 Print Assumptions C10_split_roundtrip.
+
+(* HashFromByteSlicesIterative (bottom-up pairing passes) computes the root of
+   HashFromByteSlices (top-down split at the largest power of two below n): every item list. *)
+Theorem C10_iterative_eq_recursive :
+  forall (H : bytes -> bytes) (items : list bytes), root_iterative H items = root H items.
+Proof. exact iterative_eq_recursive. Qed.
+Print Assumptions C10_iterative_eq_recursive.
 
 (* ---- the sender's side, and sender to receiver end to end (C10/Sender.v) ---- *)
 
